@@ -11,6 +11,7 @@ fn main() {
         "c15_get_providers" => c15_get_providers(&mut nd),
         "c15_find_node" => c15_find_node(&mut nd),
         "c04_identity_receive" => c04_identity_receive(&mut nd),
+        "c02_noise_attacks" => c02_noise_attacks(&mut nd),
         "c02_noise_stream" => c02_noise_stream(&mut nd),
         "c01_identity_binding" => c01_identity_binding(&mut nd),
         "c07_closed_report" => c07_closed_report(&mut nd),
